@@ -46,6 +46,8 @@ func runC08(c *engine.Ctx, tier string) {
 	// registered before the replay read, and must stay registered while other watchers of the record leave
 	watchOrder(c, "C08.4a", pkgStoreTxV2)
 	registryCleanup(c, "C08.4b", pkgStoreTxV2, 3)
+	// and the events themselves keep coming: the store's dispatcher survives a bad event
+	dispatcherLives(c, "C08.4c", pkgStoreTxV2, 1)
 }
 
 // waitTable evaluates the wait loop of a handler over Synchronicity × State.
